@@ -11,7 +11,8 @@ RULE = ("real util::FilePiece in-process (ReadLine, ReadLineOrEOF, LineIterator;
         "{0,1,4095,4096,size}, istream, gzip/bzip2/xz and multi-member concatenations; bin/remove_long_lines as identity filter; "
         "oracle = PV.Spec.Records.splitRecords on the records the implementation returned; non-trivial = distinct op")
 ASSUMPTIONS = ["model transcribes FilePiece::ReadLine/ReadShift/MMapShift by hand; page size 4096",
-               "mmap failure fallback (TransitionToRead mid-file) and progress output are not modelled",
+               "in the mmap -> read fallback the re-run of the compression-magic detection on mid-file bytes is not modelled (generated files never "
+               "contain a magic there); progress output is not modelled",
                "decompressors deliver the plain bytes (C15); input does not start with a compression magic unless compressed"]
 
 IMPL = "implreader"
@@ -62,6 +63,17 @@ def run(ctx):
         data = bytes(rng.choice(b"ab\n\r") if rng.random() < 0.02 else 97 + (i % 7) for i in range(size))
         for start in sorted(set(min(s, size) for s in [0, 1, 4095, 4096, 4097, 8192, size])):
             ops.append(op("file", 10, 1, 1, "-", rng.randrange(3), start, data))
+    # 3b. regular files whose k-th and later mmap calls fail (FilePiece falls back to read(2) at the first window,
+    #     at a later window, in the middle of a record, at aligned and unaligned offsets), then short reads
+    for _ in range(60 if ctx.tier == "quick" else 1200):
+        size = rng.choice([0, 1, 5000, 8192, 8193, 12000, 20000, 30000, 40000])
+        llen = rng.choice([7, 60, 700, 5000, 9000])
+        data = bytes(10 if (rng.random() < 1.0 / llen) else (13 if rng.random() < 0.01 else 97 + (i % 23)) for i in range(size))
+        start = min(size, rng.choice([0, 0, 1, 904, 4095, 4096, 4097, 5000, 8192, 9001]))
+        k = rng.choice([0, 0, 1, 1, 2, 3])
+        sc = ",".join(str(rng.choice([1, 2, 6, 100, 4096, 8191, 8192, 8193, 100000])) for _ in range(rng.randrange(0, 10))) or "-"
+        ops.append(op(f"filenommap:{k}", 10, rng.randrange(2), 1, sc, rng.randrange(3), start, data))
+    ctx.cov["mmap_fallback_ops"] = sum(1 for o in ops if " filenommap" in o)
     ops = list(dict.fromkeys(ops))
     bad, a, b = pvlib.diff_streams(ctx, "reader.lines", ops, impl_exe=impl)
     ctx.cov["records_total"] = sum(int(x.split()[1]) for x in a if x.startswith("ok "))
